@@ -92,6 +92,10 @@ def run_shard(shard, ctx):
             keys = {"%s/%s" % tuple(p) for p in sel} & present
             exp = ["ok", restrict(full[1], keys)]
             vias = ("file",) + (("file-tuple",) if sm % 5 == 0 else ()) + (("path", "path-bom") if sm % 7 == 3 else ())
+            if sel and sm % 3 == 1:  # the same pairs named twice / in reverse order select the same tracks
+                e1.check_outcome(ctx, "selection", text, [exp], "file", sel + sel[::-1], "file tracks %r, selection with duplicates %r" % (sorted(present), sel + sel[::-1]))
+                ctx.case((text, "dup", tuple(map(tuple, sel))))
+                ctx.evaluations += 1
             for via in vias:
                 ctx.case((text, tuple(map(tuple, sel)), via), nontrivial=bool(fm and sm), sample=lambda: dict(file_tracks=sorted(present), selection=sel))
                 ctx.evaluations += 1
